@@ -46,11 +46,24 @@ def slice_length_sites(fn: FuncInfo):
         v = n.value
         uses = {x.value.id for x in ast.walk(v) if isinstance(x, ast.Subscript) and isinstance(x.value, ast.Name) and x.value.id in idx_names}
         starred = {x.value.id for x in ast.walk(v) if isinstance(x, ast.Starred) and isinstance(x.value, ast.Name) and x.value.id in idx_names}
-        if not uses and not starred:
+        direct = [x for x in ast.walk(v) if isinstance(x, ast.Call) and isinstance(x.func, ast.Attribute) and x.func.attr == 'indices']
+        if isinstance(v, ast.Call) and isinstance(v.func, ast.Attribute) and v.func.attr == 'indices':
+            continue                        # the `indexes = X.indices(n)` binding itself
+        if not uses and not starred and not direct:
             continue
         s = norm(v).replace(' ', '')
-        if s.startswith('len(range('):
+        if s.startswith('len(range(*') and (starred or (direct and isinstance(v, ast.Call) and v.args and isinstance(v.args[0], ast.Call)
+                                                         and v.args[0].args and isinstance(v.args[0].args[0], ast.Starred)
+                                                         and v.args[0].args[0].value is direct[0])):
             yield n, True, 'len(range(...))'
+            continue
+        if s.startswith('len(range(') and uses and isinstance(v, ast.Call) and v.args and isinstance(v.args[0], ast.Call):
+            nm = next(iter(uses))
+            if [norm(a).replace(' ', '') for a in v.args[0].args] == ['%s[%d]' % (nm, i) for i in range(3)]:
+                yield n, True, 'len(range(start, stop, step))'
+                continue
+        if direct and not uses:
+            yield n, None, 'unrecognised length formula over slice.indices()'
             continue
         if isinstance(v, ast.BinOp) and isinstance(v.op, ast.FloorDiv):
             nm = next(iter(uses))
@@ -63,7 +76,7 @@ def slice_length_sites(fn: FuncInfo):
             else:
                 yield n, False, 'floor division of the span by the step'
             continue
-        yield n, False, 'unrecognised length formula over slice.indices()'
+        yield n, None, 'unrecognised length formula over slice.indices()'
 
 
 class _Reported(PathInterp):
@@ -98,6 +111,9 @@ def check(ctx: Ctx) -> None:
     found = False
     for stmt, ok, why in slice_length_sites(fn):
         found = True
+        if ok is None:
+            ctx.error('C03.a: `%s` computes a length from slice.indices() in a form that is neither len(range(*...)) nor a '
+                      'floor/ceil division (cannot tell)' % norm(stmt)[:90])
         construct = 'TdlChannel.corrupt_data_in_freq_domain:%s' % norm(stmt.targets[0])
         ctx.instance('C03.a', construct)
         ctx.obligation('C03.a', construct, ok, {'statement': norm(stmt), 'verdict': why})
@@ -249,16 +265,35 @@ def _check_superposition(ctx: Ctx) -> None:
         fn = M.func(MU, 'MuChannel.' + meth)
         construct = 'MuChannel.' + meth
         problems = []
-        # grid selection under switched_direction
-        sel = [n for n in walk_no_nested(fn.node) if isinstance(n, ast.If) and norm(n.test) == 'self.switched_direction']
+        # the grid the links are picked from: the channel array, transposed exactly when the direction is switched
+        # (symbolic value of the grid variable on every path reaching the first pick; any spelling of the selection)
+        pick_nodes = [n for n in ast.walk(fn.node) if isinstance(n, ast.Assign) and isinstance(n.targets[0], ast.Name)
+                      and isinstance(n.value, ast.Subscript) and isinstance(n.value.slice, ast.Tuple) and len(n.value.slice.elts) == 2
+                      and isinstance(n.value.value, ast.Name)]
+        gnames = {n.value.value.id for n in pick_nodes}
         grid = None
-        if len(sel) == 1 and len(sel[0].body) == 1 and len(sel[0].orelse) == 1 and isinstance(sel[0].body[0], ast.Assign):
-            a, b = sel[0].body[0], sel[0].orelse[0]
-            if isinstance(b, ast.Assign) and norm(a.targets[0]) == norm(b.targets[0]):
-                grid = norm(a.targets[0])
-                if not (norm(a.value) == 'self._su_siso_channels.T' and norm(b.value) == 'self._su_siso_channels'):
-                    problems.append('grid is not transposed under switched_direction')
-        if grid is None:
+        if len(gnames) != 1:
+            ctx.error('C03.d: %s picks its link channels from %s (one grid variable expected; cannot tell)' % (construct, sorted(gnames)))
+        grid = gnames.pop()
+        from ..astutil import cond_values, stmts_in_order
+        first_pick = [s for s in stmts_in_order(fn) if s in pick_nodes][0]
+        try:
+            paths = cond_values(fn, first_pick)
+        except OverflowError:
+            ctx.error('C03.d: too many paths before the first link pick in %s (cannot tell)' % construct)
+        seen_sw = set()
+        for conds, env in paths:
+            sw = [c for c in conds if 'switched_direction' in c]
+            val = norm(env[grid]) if grid in env else None
+            if val is None or len(sw) != 1 or sw[0] not in ('self.switched_direction', 'not self.switched_direction'):
+                ctx.error('C03.d: cannot trace the grid `%s` of %s back to the direction test (value %s under %s)'
+                          % (grid, construct, val, list(conds)))
+            switched = sw[0] == 'self.switched_direction'
+            seen_sw.add(switched)
+            want = 'self._su_siso_channels.T' if switched else 'self._su_siso_channels'
+            if val.replace('.transpose()', '.T') != want:
+                problems.append('grid is `%s` when the direction is %sswitched (expected %s)' % (val, '' if switched else 'not ', want))
+        if seen_sw != {True, False}:
             problems.append('no grid selection on switched_direction')
         # channel picks and the calls
         picks: Dict[str, Tuple[str, str]] = {}
